@@ -43,6 +43,9 @@ def make(prop, tier):
                       (S8, 2, 3), (S8, 1, 3), (S8, -2, 3), (S8, 4, 3), (U8, -3, 3), (S16, 3, 3), (S16, 1, 3), (S32, 5, 3), (S32, -7, 3),
                       (S8, 1, 10), (S8, 2, 10), (U8, 1, 10), (S16, 2, 10), (S16, -3, 10), (S8, 1, 8), (S8, -1, 8), (U8, 2, 8), (S16, -3, 8)]:
         regs.append('c13::Chars<%s, %d, false>::reg("scaled_r%d|%s:%d")' % (sc(rep, e, r), prop, r, short(rep), e))
+    # 128-bit reps at the ends of the exponent range (decimal exponents of three digits)
+    for rep, e, r in [(S128, 70, 10), (S128, 62, 10), (S128, 70, 8), (S128, 69, 8), (S128, -70, 10), (S128, 70, 2), (S128, -70, 2), (U128, 70, 10)]:
+        regs.append('c13::Chars<%s, %d, false>::reg("scaled_r%d|%s:%d")' % (sc(rep, e, r), prop, r, short(rep), e))
     for t, tl in [('cnl::elastic_scaled_integer<24, cnl::power<-10>>', 'esi24:-10'), ('cnl::scaled_integer<cnl::wide_integer<100>, cnl::power<-50>>', 'wide100:-50'),
                   ('cnl::static_number<30, -12>', 'static_number30:-12')]:
         regs.append('c13::Chars<%s, %d, false>::reg("scaled|%s")' % (t, prop, tl))
